@@ -310,7 +310,7 @@ def run(tier: str) -> int:
             # partial inlining: the enclosing call stays, its earlier argument is read after the spliced body
             return {'shape': 'list-read-argument-before-partially-inlined-mutating-call'}
         return {}
-    equiv.report(rep, pairs, timeouts, mm, skips, stats, extra_key=key)
+    equiv.report(rep, pairs, timeouts, mm, skips, stats, extra_key=key, agree=agree)
     equiv.run_agree(rep, agree, extra_key=key)
     rep.cov['distinct_nontrivial'] = len({(m['program'], m['xsrc']) for (_, _, m) in pairs})
     rep.cov['rule'] = ('hand-written + generated caller/callee programs x {inline all/one site/one level, close, lift_context, '
